@@ -135,6 +135,13 @@ func (h hostileReq) buildBody() (body []byte, mustRefuse bool, class string) {
 		return b[:cut], true, "truncated-json"
 	case "unterminated":
 		return []byte(`{"secret":"JBSWY3DPEHPK3PXP","code":"12`), true, "unterminated-string"
+	case "badnum":
+		// a numeric field written in a way the JSON grammar does not allow (leading zero, bare sign, missing digits around the
+		// point or after the exponent, hex, separators, NaN): not a JSON text, whatever a lenient lexer makes of it
+		return splice(h.Field, h.Value), true, "malformed-number"
+	case "rawctl":
+		// a string field with a raw (unescaped) control character inside the quotes: not a JSON text
+		return splice(h.Field, "\"JBSWY3DP"+h.Value+"EHPK3PXP\""), true, "raw-control-character-in-string"
 	case "trailing":
 		// a complete, valid request object followed by more bytes: not a JSON text any more
 		return append(enc(base), h.Value...), true, "trailing-data"
@@ -434,7 +441,7 @@ func checkC19(c c19Case) verdict {
 
 func syntacticClass(class string) bool {
 	switch class {
-	case "empty-body", "truncated-json", "unterminated-string", "raw-invalid-json", "nested-arrays", "trailing-data":
+	case "empty-body", "truncated-json", "unterminated-string", "raw-invalid-json", "nested-arrays", "trailing-data", "malformed-number", "raw-control-character-in-string":
 		return true
 	}
 	return false
@@ -490,7 +497,7 @@ func trunc(s string, n int) string {
 }
 
 var c19Main = newPart("C19", "hostile-histories",
-	"rapid: histories of 2..16 requests to the REAL server binary: methods {GET,POST,PUT,DELETE,HEAD,PATCH,OPTIONS, extension and odd tokens such as PROPFIND, BREW, TRACE, CONNECT, get, a 40-letter token} x paths (ten endpoints, /, /docs..., unknown, 4 KiB long, percent-encoded, doubled/trailing slashes, case variants) x bodies from a JSON mutation grammar over each endpoint's well-formed body (empty, truncated at any byte, unterminated string, a valid object followed by trailing bytes, arbitrary bytes, a dropped field, every field x every JSON type incl. null/bool/array/object/number where a string is expected, numbers at +-2^53, +-2^63, 2^64, 1e400, -1, 1.5, numbers drawn from the whole JSON number grammar (zero and non-zero mantissas of up to 1000 digits, fractions, exponents up to +-2^63 and beyond), skew/period/counter/timestamp extremes, blank and 1 MiB strings, contradictory suites incl. blank raw_suite, nested arrays, bodies at and over the 1 MiB limit), every 3rd..5th request a well-formed probe whose answer is checked against the reference; invariant over the history: every request gets a complete parseable HTTP response within 5 s (one lone retry with 15 s), syntactically broken bodies on the POST endpoints, wrong methods (other than HEAD / OPTIONS) and plain unknown paths get a failure status (>= 400); wrongly typed / out-of-range / blank / missing-required fields get a failure status or, if the service handles them, the endpoint's actual result (never an error description under a success status), probes 200 with the RFC value, the process is alive and reports no unrecovered panic; non-trivial = history with at least one non-well-formed request",
+	"rapid: histories of 2..16 requests to the REAL server binary: methods {GET,POST,PUT,DELETE,HEAD,PATCH,OPTIONS, extension and odd tokens such as PROPFIND, BREW, TRACE, CONNECT, get, a 40-letter token} x paths (ten endpoints, /, /docs..., unknown, 4 KiB long, percent-encoded, doubled/trailing slashes, case variants) x bodies from a JSON mutation grammar over each endpoint's well-formed body (empty, truncated at any byte, unterminated string, a valid object followed by trailing bytes, numbers the JSON grammar does not allow (01, 1., +1, 0x10, NaN ...), raw control characters inside a string, arbitrary bytes, a dropped field, every field x every JSON type incl. null/bool/array/object/number where a string is expected, numbers at +-2^53, +-2^63, 2^64, 1e400, -1, 1.5, numbers drawn from the whole JSON number grammar (zero and non-zero mantissas of up to 1000 digits, fractions, exponents up to +-2^63 and beyond), skew/period/counter/timestamp extremes, blank and 1 MiB strings, contradictory suites incl. blank raw_suite, nested arrays, bodies at and over the 1 MiB limit), every 3rd..5th request a well-formed probe whose answer is checked against the reference; invariant over the history: every request gets a complete parseable HTTP response within 5 s (one lone retry with 15 s), syntactically broken bodies on the POST endpoints, wrong methods (other than HEAD / OPTIONS) and plain unknown paths get a failure status (>= 400); wrongly typed / out-of-range / blank / missing-required fields get a failure status or, if the service handles them, the endpoint's actual result (never an error description under a success status), probes 200 with the RFC value, the process is alive and reports no unrecovered panic; non-trivial = history with at least one non-well-formed request",
 	checkC19)
 
 var jsonValues = []string{"null", "true", "false", "0", "1", "-1", "1.5", "1e3", "1e400", "-1e400", "9007199254740992", "-9007199254740993", "9223372036854775807", "9223372036854775808", "-9223372036854775808", "-9223372036854775809",
@@ -529,7 +536,7 @@ func drawHostile(t *rapid.T) hostileReq {
 	h.KeepAlive = rapid.Bool().Draw(t, "keepAlive")
 	fields := sortedFieldNames(h.Ep)
 	h.Field = rapid.SampledFrom(fields).Draw(t, "field")
-	h.Mutation = rapid.SampledFrom([]string{"none", "empty", "truncate", "unterminated", "raw", "drop", "type", "type", "type", "type", "contradictory", "big-string", "nested", "extreme", "extreme", "trailing"}).Draw(t, "mutation")
+	h.Mutation = rapid.SampledFrom([]string{"none", "empty", "truncate", "unterminated", "raw", "drop", "type", "type", "type", "type", "contradictory", "big-string", "nested", "extreme", "extreme", "trailing", "badnum", "rawctl"}).Draw(t, "mutation")
 	switch h.Mutation {
 	case "truncate":
 		h.Cut = rapid.IntRange(0, 400).Draw(t, "cut")
@@ -539,6 +546,28 @@ func drawHostile(t *rapid.T) hostileReq {
 		} else {
 			h.Raw = rapid.SliceOfN(rapid.Byte(), 0, 60).Draw(t, "rawBytes")
 		}
+	case "badnum":
+		var nums []string
+		for _, f := range fields {
+			if ft := fieldTypes[h.Ep][f]; ft == "u" || ft == "i" {
+				nums = append(nums, f)
+			}
+		}
+		if len(nums) == 0 {
+			h.Mutation = "none"
+			break
+		}
+		h.Field = rapid.SampledFrom(nums).Draw(t, "badNumField")
+		h.Value = rapid.SampledFrom([]string{"01", "00", "-01", "059", "1.", ".5", "+1", "1e", "1e+", "0x10", "1_000", "NaN", "Infinity", "-", "1,5", "1 2", "٣", "1f", "--1", "0b1"}).Draw(t, "badNum")
+	case "rawctl":
+		strs := []string{}
+		for _, f := range fields {
+			if fieldTypes[h.Ep][f] == "s" {
+				strs = append(strs, f)
+			}
+		}
+		h.Field = rapid.SampledFrom(strs).Draw(t, "rawCtlField")
+		h.Value = rapid.SampledFrom([]string{"\n", "\t", "\r", "\x01", "\x00", "\x1f", "\x0c"}).Draw(t, "rawCtl")
 	case "trailing":
 		h.Value = rapid.SampledFrom([]string{"}", "]", "}}", "}}}} not json <<<", "] x", " x", "{}", "[]", ",", "null", "\"", "\x00", "{\"secret\":\"A\"}", "//c", "\n\n1"}).Draw(t, "trail")
 	case "type":
